@@ -859,7 +859,10 @@ _MALFORMED = [("lock x -", "bad-op"), ("lock 0", "bad-op"), ("lock 0 x", "bad-op
 
 class C04(Prop):
     id = "C04"
-    lean_modules = ["QmiModel.Props.C04"]
+    # Props/C04Pinned.lean holds the negation witnesses of the FORCE_RELEASE-on-unlocked crash (DESIGN §7a); translate()
+    # keeps it among the obligations exactly when the real handler is seen to crash in that cell
+    lean_modules = ["QmiModel.Props.C04", "QmiModel.Props.C04Pinned"]
+    props_files = ["QmiModel/Props/C04.lean", "QmiModel/Props/C04Pinned.lean"]
     driver = "drv_c04"
     modelled_not_verified = [
         "message transport between proxy and worker (QMI_RpcFuture, MessageRouter, TCP peers): a request reaches the worker and "
@@ -880,6 +883,13 @@ class C04(Prop):
         t = build_tables(random.Random(f"C04-translate:{ctx.seed}"))
         core.write_if_changed(GEN_FILE, render_gen(t))
         self._tables = t
+        if all(t["lock"][("FORCE_RELEASE", False, r)].startswith("crash:") for r in ("none", "other")):
+            self.lean_modules = ["QmiModel.Props.C04", "QmiModel.Props.C04Pinned"]
+            self.props_files = ["QmiModel/Props/C04.lean", "QmiModel/Props/C04Pinned.lean"]
+        else:   # the cell answers: nothing left to witness, Props/C04.lean carries the property alone
+            self.lean_modules = ["QmiModel.Props.C04"]
+            self.props_files = ["QmiModel/Props/C04.lean"]
+            ctx.log("FORCE_RELEASE on an unlocked object is answered in this tree: Props/C04Pinned.lean (witnesses of that defect) not among the obligations")
         return [GEN_FILE]
 
     # -- helpers --------------------------------------------------------------------------------
@@ -957,7 +967,7 @@ class C04(Prop):
         failures: dict = {}
         with _Instrumented():
             self._run_batch(ctx, sweep_histories(), res, "sweep", failures)
-            n = ctx.scale(420, 1600)
+            n = ctx.scale(400, 4000)
             max_ops = ctx.scale(40, 400)
             hists = [gen_history(ctx.rng, max_ops if (ctx.quick or i % 8 == 0) else 60) for i in range(n)]
             for i in range(0, len(hists), 100):
